@@ -147,6 +147,48 @@ CHECKS.update({
             "matplotlib Agg; multi-region HDC save is a refusal", "DESIGN.md §4 C20"),
 })
 
+CHECKS.update({
+    "C06": ("exploration",
+            "bounded-exhaustive lattice (family pairs/triples x every structure x quantile points x input forms) on the real "
+            "model; explicit product reference and independent Gauss-Legendre cubature of the implementation's pdf",
+            "pdf = product of template densities with theta(g) from the raw dependence shapes for every input form; integral of "
+            "the pdf over the orthant = 1; model.cdf = cubature over the lower-left orthant; marginal_pdf / marginal_cdf = "
+            "cubature over the other variables; marginal_icdf exact for unconditional and inside the exact-binomial band "
+            "for Monte-Carlo dims.",
+            "cubature self-validated with k and 2k nodes (1e-6); 3-D cdf only in the thorough tier", "DESIGN.md §4 C06"),
+    "C09": ("model_checking",
+            "bounded-exhaustive: ALL 7! row orders of small matrices + fixed permutation family on large matrices, and "
+            "explicit-state BFS over fit/re-fit histories on the real model objects (closes after 2 levels)",
+            "Order invariance of the fitted model (closed-form estimators to 1e-9, optimiser-based to 2e-3); every interval "
+            "fitted to exactly its own observations with exactly its dimension's method/weights (stand-alone fits); "
+            "conditioning values = slicer references; dependence functions = independent lstsq of the estimates; the state "
+            "after any history ending in fit(D_a) equals a fresh model fitted to D_a.",
+            "the slicer is the membership reference (C10)", "DESIGN.md §4 C09"),
+    "C12": ("exploration",
+            "bounded-exhaustive lattice (family x regular parameter grid x n x data seed x start x scale factor) on the real "
+            "MLE fits; likelihood and equivariance oracle",
+            "LL(fit) >= LL(start), LL(fit) >= LL(generating), admissible parameters, scale equivariance (parameters within 1e-3 "
+            "or equal attained likelihood after mapping back) for 9 families incl. fixed/free Weibull location.",
+            "own pdf for the likelihood (C05); data sets are a fixed finite family", "DESIGN.md §4 C12"),
+    "C16": ("exploration",
+            "bounded-exhaustive lattice (transform grid; models x quantile points; conditioning quantile x n x seed; IFORM "
+            "option product) on the real code; mpmath, cubature and closed-form conditional references with DKW/binomial bands",
+            "inverse(transform(x)) = x within 64 eps kappa, Jacobians analytic and by central differences, pdf = push-forward, "
+            "integral 1, cdf = cubature and inside the binomial band of the empirical cdf, samples = inverse-transformed base "
+            "samples, conditional_sample/cdf/icdf against the exact conditional (DKW + tail coverage), IFORM coordinates inside "
+            "binomial bands of the exact push-forward and bit-reproducible with random_state.",
+            "finite-sample bands at 1e-12; hard-coded model coefficients", "DESIGN.md §4 C16"),
+    "C19": ("model_checking",
+            "explicit-state BFS per predefined getter over histories of 22 evaluate/contour/plot/save/fit events on the real "
+            "objects; canonical deep digests; search closes at 8 states per getter",
+            "Every evaluation event leaves the exact deep digest of all models, templates, getter results and caller arrays "
+            "unchanged, returns identical results when repeated and identical to the first result recorded for that state; "
+            "fit(B) changes B only; the wrapper's fit leaves its template unchanged; two getter results share no mutable "
+            "object; read-only inputs are accepted.",
+            "worlds are deep-copied from a cached build after the copy was validated (identical digest, no shared mutable "
+            "object), else rebuilt from scratch", "DESIGN.md §4 C19"),
+})
+
 NOT_APPLICABLE = {
 }
 
